@@ -30,7 +30,9 @@ def probe(names):
 class P:
     id = "C20"
     rule = ("histories of Set/Unset/Get/Walk over ordinary, special, positional (multi-digit, leading-zero, overflow) and "
-            "case-variant names; exhaustive up to length 3 over a 5-name alphabet, then random up to length 40; each history ends "
+            "case-variant names; exhaustive up to length 3 over a 5-name alphabet, then random up to length 40; histories of up to 10 operations interleaved "
+            "with Expand (nested := = :- :+ % # ? operators, arithmetic assignments, nounset on/off, modes 0/Quote/Literal) and Eval calls, store + Args + Opts observed "
+            "after each; each history ends "
             "with Get of every universe name and Walk; a case is non-trivial when it contains at least one Set and the history is distinct")
     exhaustive = True
     assumptions = ["process environment cleared so that NewExecEnv starts from {IFS}", "os.Getpid() passed to the model as an oracle value"]
@@ -68,7 +70,63 @@ class P:
                 else:
                     ops.append(("W",))
             cases.append(mkcase(rnd.choice(ARGS), rnd.getrandbits(13), ops + probe(names)))
-        return [{"name": "histories", "harness": "c20", "driver": "c20", "cases": cases,
+        # histories interleaved with Expand and Eval calls that assign (or must not)
+        from props import xpgen as X
+        NOGLOB, NOUNSET = X.NOGLOB, X.NOUNSET
+        un = [b"x", b"y", b"z", b"1", b"#", b"IFS", b"X"]
+
+        def aword(d=2):
+            n = rnd.choice(un).decode()
+            k = rnd.random()
+            inner = (lambda: aword(d - 1)) if d > 0 else (lambda: [X.L(rnd.choice(["v", "", "a b", "1"]))])
+            if k < 0.22:
+                return [X.P(n, rnd.choice([":=", "="]), inner())]
+            if k < 0.5:
+                return [X.P(n, rnd.choice([":-", "-", ":+", "+", "%", "%%", "#", "##", ":?", "?"]), inner())]
+            if k < 0.6:
+                return [X.P(n)]
+            if k < 0.66:
+                return [X.P(n, "#")]
+            if k < 0.8:
+                return [X.A(X.L(rnd.choice(["%s=1", "%s++", "%s+=2", "--%s", "%s=%s+1", "%s", "1/0", "%s=1/0", "(%s=3)*0"]).replace("%s", rnd.choice(["x", "y", "z"]))))]
+            if k < 0.9:
+                return [X.Q('"', *inner())]
+            return [X.L(rnd.choice(["lit", "", "~", "a*b"]))] + inner()
+
+        def xop():
+            w = aword()
+            return "X:%d:%s" % (rnd.choice([0, 0, 2, 4]), hx(" ".join(w)))
+
+        def eop():
+            v = rnd.choice(["x", "y", "z"]); u = rnd.choice(["x", "y", "z"])
+            e = rnd.choice(["%s=1", "%s++", "++%s", "%s+=%s", "%s=%s=2", "1/0", "%s=1/0", "%s", "%s = %s + 1", "09", "%s=09", "%s=(%s=4)+1", "%s--*0", "1 ? %s=5 : 0"])
+            return "E:%s" % hx(e.replace("%s", v, 1).replace("%s", u))
+
+        xcases = []
+        nx = 6000 if tier == "quick" else 120000
+        for _ in range(nx):
+            ops = []
+            for _ in range(rnd.randint(1, 10)):
+                k = rnd.random()
+                n = rnd.choice(un)
+                if k < 0.2:
+                    ops.append(opstr(("S", n, rnd.choice([b"", b"a", b"5", b"b c", b"zz"]))))
+                elif k < 0.3:
+                    ops.append(opstr(("U", n)))
+                elif k < 0.4:
+                    ops.append(opstr(("G", n)))
+                elif k < 0.45:
+                    ops.append("W")
+                elif k < 0.8:
+                    ops.append(xop())
+                else:
+                    ops.append(eop())
+            ops += [opstr(o) for o in probe(un)]
+            opts = NOGLOB | (NOUNSET if rnd.random() < 0.5 else 0) | (rnd.getrandbits(13) & ~(NOGLOB | NOUNSET) if rnd.random() < 0.3 else 0)
+            xcases.append("\t".join([",".join(hx(a) for a in rnd.choice(ARGS[:3])), str(opts), "4242", " ".join(ops)]))
+        xpart = {"name": "histories-with-expand-and-eval", "harness": "c20x", "driver": "c20x", "cases": xcases,
+                 "nontrivial": lambda c: "X:" in c or "E:" in c, "distribution": {"cases": nx}}
+        return [xpart, {"name": "histories", "harness": "c20", "driver": "c20", "cases": cases,
                  "nontrivial": lambda c: "S," in c,
                  "distribution": {"exhaustive_len_le_%d" % min(maxlen, 3): nex, "random": nrand}},
                 {"name": "option-string-all-bits", "harness": "optstr", "driver": "optstr",
